@@ -21,7 +21,7 @@ import (
 )
 
 var faultKinds = []string{"server-cut", "write-error", "callback-fails", "exception-anytime", "unknown-packet", "unhandled-packet",
-	"undecodable-block", "surplus-headers", "write-error+exception"}
+	"undecodable-block", "surplus-headers", "write-error+exception", "exception-cut"}
 
 func TestC04FailedQuery(t *testing.T) {
 	st := stats.G()
@@ -83,6 +83,12 @@ func runC04(rt *rapid.T, st *stats.Collector) {
 		case "exception-anytime", "write-error+exception":
 			// The whole script is one exception that may arrive at any moment.
 			steps = []simnet.Step{itemStep(Item{Kind: "exception", Exc: []ref.Exception{{Code: 60, Name: "DB::Exception", Message: "boom"}, {Code: 1, Name: "n"}}}, nil, 0, nil)}
+		case "exception-cut":
+			// An exception packet that is cut off in the middle (the transport dies while the server reports an error).
+			full := Item{Kind: "exception", Exc: []ref.Exception{{Code: 241, Name: "DB::Exception", Message: "Memory limit exceeded", Stack: "stack"}, {Code: 1, Name: "n", Message: "m"}}}.Encode(54460, 0)
+			k := 1 + insertAt*7%(len(full)-1)
+			steps = []simnet.Step{{Name: "exception-cut", Bytes: func(*ref.ClientStream) []byte { return full[:k] },
+				Then: func(cn *simnet.Conn) { cn.FailReads(errors.New("connection reset by peer")) }}}
 		case "surplus-headers":
 			var out []simnet.Step
 			for _, s := range steps {
@@ -178,6 +184,9 @@ func runC04(rt *rapid.T, st *stats.Collector) {
 			rt.Fatalf("calls on a closed client touched the connection (%d -> %d writes, %d -> %d other calls)\n%s", nwrites, len(w2), ncalls, len(c2), describe())
 		}
 	} else {
+		if fault == "exception-cut" && faultHappened {
+			rt.Fatalf("the server stream was cut in the middle of an Exception packet, yet the client stays open (the read side is inside a packet)\n%s", describe())
+		}
 		// Open: everything written during the failed call parses as whole packets ...
 		var perr error
 		var pending int
@@ -198,7 +207,7 @@ func runC04(rt *rapid.T, st *stats.Collector) {
 		if string(sent) != "\x04" {
 			rt.Fatalf("client left open after the failed query; the follow-up Ping made it write %d bytes (%x…), want exactly 04: bytes encoded for the failed query were sent later\n%s", len(sent), trunc(sent), describe())
 		}
-		if cutErr == nil && fault != "undecodable-block" && faultHappened {
+		if cutErr == nil && fault != "undecodable-block" && fault != "exception-cut" && faultHappened {
 			if pingErr != nil {
 				rt.Fatalf("client left open after the failed query, but the follow-up Ping fails: %v (the read side is not at a response boundary)\n%s", pingErr, describe())
 			}
